@@ -7,7 +7,9 @@ import Tickit.Model.WinTree
   dispatch, `tickit_window_take_focus` (without its events) and `tickit_window_flush` as far as the tree goes.
 
   Handlers are data (DESIGN §3 "Callbacks"): a binding is a table of entries; invocation `i` runs the actions of
-  entry `min i (n-1)` and returns its `ret`.  The actions are the tree mutations an application may perform from
+  entry `min i (n-1)` and returns its `ret`.  A binding may be one-shot (`TICKIT_BIND_ONESHOT`) and an entry may first
+  unbind the binding it belongs to: such a binding is `gone` from then on (the tombstones and the deferred sweep of
+  src/bindings.c are property C16's model; here a walk passes over what is gone).  The actions are the tree mutations an application may perform from
   inside a handler.  The application rules of the harness (which actions it refuses) are part of the interpreter.
 
   Outcomes: `ok`, `ub` (the C code dereferences freed memory / NULL, or abort()s), `fuel` (the model ran out of
@@ -62,6 +64,9 @@ deriving Repr, DecidableEq, Inhabited
 structure Entry where
   ret : Bool
   actions : List Action := []
+  /-- the handler first unbinds this very binding (`tickit_window_unbind_event_id` with its own id, from inside its own
+      invocation: the binding becomes a tombstone of the list that is being walked) -/
+  unbind : Bool := false
 deriving Repr, DecidableEq, Inhabited
 
 structure Binding where
@@ -70,6 +75,11 @@ structure Binding where
   idx : Nat                    -- position among the bindings of this window and kind
   entries : List Entry
   count : Nat := 0             -- invocations so far
+  /-- bound with `TICKIT_BIND_ONESHOT` -/
+  oneshot : Bool := false
+  /-- no longer bound (`bind->id == BINDING_ID_TOMBSTONE`, or already swept out of the list): a fired one-shot binding,
+      or one that unbound itself -/
+  gone : Bool := false
 deriving Repr, DecidableEq, Inhabited
 
 /-- `TickitKeyEventInfo` / `TickitMouseEventInfo` (the key string plays no part in routing). -/
@@ -299,15 +309,23 @@ def entryIndex (b : Binding) : Nat := if b.count < b.entries.length then b.count
 /-- The entry a binding uses on its next invocation. -/
 def Binding.entry (b : Binding) : Entry := b.entries.getD (entryIndex b) { ret := false }
 
-/-- Run the bindings with the given indices into `st.binds` until one claims. -/
+/-- The binding after one more invocation: the walkers of src/bindings.c turn a `TICKIT_BIND_ONESHOT` binding into a
+    tombstone before they call it, and a handler that unbinds its own binding does so while it runs (the list is being
+    walked, so `tickit_bindings_unbind_event_id` leaves a tombstone); either way the binding is never invoked again. -/
+def Binding.fired (b : Binding) : Binding :=
+  { b with count := b.count + 1, gone := b.oneshot || b.entry.unbind }
+
+/-- Run the bindings with the given indices into `st.binds` until one claims
+    (`for(bind = first; bind; bind = bind->next) if(bind->evindex == evindex && bind->id != BINDING_ID_TOMBSTONE) …`). -/
 def runBindings (st : St) (kind : Kind) (win : Id) (ev : Ev) : List Nat → Res (St × Bool)
   | [] => pure (st, false)
   | bi :: rest =>
     match st.binds[bi]? with
     | none => runBindings st kind win ev rest
     | some b =>
+      if b.gone then runBindings st kind win ev rest else
       let e := b.entry
-      let st := { st with binds := st.binds.setIfInBounds bi { b with count := b.count + 1 } }
+      let st := { st with binds := st.binds.setIfInBounds bi b.fired }
       let st := st.say (.call kind win b.idx (entryIndex b) e.ret ev)
       do
         let st ← doActions st e.actions
@@ -650,9 +668,9 @@ def newWin (st : St) (parent : Id) (rect : Rect) (rootParent hidden lowest steal
   let (t, id) ← newWindow st.tree (treeFuel st.tree) parent rect rootParent hidden lowest steal
   pure ({ st with tree := t, owned := st.owned.push 1 }, id)
 
-def addBinding (st : St) (win : Id) (kind : Kind) (entries : List Entry) : St × Nat :=
+def addBinding (st : St) (win : Id) (kind : Kind) (entries : List Entry) (oneshot : Bool := false) : St × Nat :=
   let idx := (bindingsOf st.binds kind win).length
-  ({ st with binds := st.binds.push { win := win, kind := kind, idx := idx, entries := entries } }, idx)
+  ({ st with binds := st.binds.push { win := win, kind := kind, idx := idx, entries := entries, oneshot := oneshot } }, idx)
 
 def flushSt (st : St) : Res St := do
   let t ← flush st.tree
@@ -672,7 +690,8 @@ def offerBindings (binds : Array Binding) : List Nat → Array Binding × Bool
     match binds[bi]? with
     | none => offerBindings binds rest
     | some b =>
-      let binds' := binds.setIfInBounds bi { b with count := b.count + 1 }
+      if b.gone then offerBindings binds rest else
+      let binds' := binds.setIfInBounds bi b.fired
       if b.entry.ret then (binds', true) else offerBindings binds' rest
 
 /-- Offer an event to one window. -/
